@@ -17,11 +17,25 @@ class Context(object):
         self.report = Report(pid, tier)
         self._inv = None
         self._lm = None
+        self.analysis_errors = []
         r = self.report
         r.analysed["repo"] = self.program.root
         r.analysed["modules_parsed"] = len(self.program.modules)
         r.analysed["classes_in_table"] = len(self.program.all_classes())
         r.analysed["source_digest"] = self.program.digest()[:16]
+
+    def guard(self, fn, *args, **kw):
+        """Run one step of a property check.  An analysis error in one step
+        (unsupported construct, vanished anchor) does not hide what the other
+        steps find: it is recorded and re-raised at the end only when no
+        violation was found."""
+        from .loader import AnalysisError
+
+        try:
+            return fn(*args, **kw)
+        except AnalysisError as e:
+            self.analysis_errors.append(str(e))
+            return None
 
     @property
     def thorough(self) -> bool:
